@@ -107,7 +107,8 @@ impl St {
         if code == -1 {
             self.rep.viol("C17", format!("C17:panic:{}", what), format!("{} with {} panicked", what, class));
         } else if matches!(code, UNKNOWN | INTERNAL | UNAVAILABLE) {
-            self.rep.viol("C17", format!("C17:bad-status:{}:code={}", what, code), format!("{} with {} answered status {}", what, class, code));
+            let msg = LAST_MESSAGE.with(|m| m.borrow().clone());
+            self.rep.viol("C17", format!("C17:bad-status:{}:code={}", what, code), format!("{} with {} answered status {} ({:?})", what, class, code, msg));
         } else if let Some(d) = demand {
             if code != d {
                 self.rep.viol("C17", format!("C17:wrong-status:{}:{}", what, class), format!("{} with {} answered {} where {} is required", what, class, code, d));
@@ -162,10 +163,15 @@ impl St {
     }
 }
 
+thread_local! {
+    static LAST_MESSAGE: std::cell::RefCell<String> = const { std::cell::RefCell::new(String::new()) };
+}
+
 fn code_of<T>(r: &Result<T, tonic::Status>) -> i32 {
     match r {
         Ok(_) => 0,
         Err(s) => {
+            LAST_MESSAGE.with(|m| *m.borrow_mut() = crate::rec::trunc(s.message(), 300));
             if s.message().starts_with("PANIC:") {
                 -1
             } else {
@@ -421,13 +427,6 @@ async fn episode(p: &EpParams) -> EpReport {
                 }
                 let Some(Ok(h)) = bounded(&mut st.rep, "StreamingPull", cx.open_stream(&s1, 0)).await else { continue };
                 w.settle().await;
-                // what the stream itself pulled becomes a lease of the model
-                let got = h.deliveries();
-                if !got.is_empty() {
-                    let now = st.seq.now();
-                    let items: Vec<(String, String, String)> = got.iter().map(|d| (d.ack_id.clone(), d.tag.clone(), d.msg_id.clone())).collect();
-                    st.seq.m.pulled(&s1, &items, 0, false, now, now, Via::Stream);
-                }
                 let a = leases1[0].clone();
                 let b = leases1.get(1).cloned().unwrap_or_else(|| a.clone());
                 let (what, class, req) = match rng.below(7) {
@@ -448,6 +447,17 @@ async fn episode(p: &EpParams) -> EpReport {
                         h.ended().unwrap_or(0)
                     }
                 };
+                // what the stream itself pulled while it was open became leases (read after the stream
+                // has ended, so that nothing it pulled late is missed in real-time runs)
+                if mt {
+                    tokio::time::sleep(Duration::from_millis(20)).await;
+                }
+                let got = h.deliveries();
+                if !got.is_empty() {
+                    let now = st.seq.now();
+                    let items: Vec<(String, String, String)> = got.iter().map(|d| (d.ack_id.clone(), d.tag.clone(), d.msg_id.clone())).collect();
+                    st.seq.m.pulled(&s1, &items, 0, false, now, now, Via::Stream);
+                }
                 drop(h);
                 st.judge(what, class, c, Some(INVALID_ARGUMENT), &[]).await;
             }
